@@ -101,6 +101,7 @@ pub fn pair_scenario(name: &str, doc_idx: &[usize], depth: usize, extra: &[Op]) 
         key_opts: KeyOpts::default(),
         max_depth: depth,
         track: false,
+        order: None,
     }
 }
 
@@ -151,6 +152,7 @@ pub fn single_scenario(name: &str, docs: Vec<Value>, depth: usize, extra: &[Op])
         key_opts: KeyOpts::default(),
         max_depth: depth,
         track: false,
+        order: None,
     }
 }
 
@@ -188,5 +190,71 @@ pub fn trio_scenario(name: &str, depth: usize) -> Scenario {
         key_opts: KeyOpts::default(),
         max_depth: depth,
         track: false,
+        order: None,
     }
+}
+
+/// appends operations to the prologue of a scenario ("start from non-initial states")
+pub fn with_prologue(mut sc: Scenario, name: &str, extra: &[Op]) -> Scenario {
+    sc.name = name.to_string();
+    sc.prologue.extend_from_slice(extra);
+    sc
+}
+
+/// Two replicas; replica 0 has edited element x nine times (its revision index reaches 10), replica 1
+/// once, concurrently: exercises the numeric (not textual) comparison of revision indexes.
+pub fn long_chain_scenario(name: &str, depth: usize, extra: &[Op]) -> Scenario {
+    let mut docs = vec![json!({"l♭":[x(), y()]})];
+    for k in 0..9 {
+        docs.push(json!({"l♭":[{"_id":"x","v":10 + k}, y()]}));
+    }
+    docs.push(json!({"l♭":[{"_id":"x","v":99}, y()]})); // 10: replica 1's concurrent edit
+    docs.push(json!({"l♭":[{"_id":"x","v":7}, y(), z()]})); // 11
+    docs.push(json!({"l♭":[y()]})); // 12
+    let mut prologue = vec![Op::Upd(0, 0), Op::Commit(0, 0), Op::Sync(1, 0)];
+    for k in 0..9 {
+        prologue.push(Op::Upd(0, 1 + k));
+        if k % 3 == 2 {
+            prologue.push(Op::Commit(0, 0));
+        }
+    }
+    prologue.extend_from_slice(&[Op::Upd(1, 10), Op::Commit(1, 0)]);
+    let mut alphabet = vec![Op::Sync(0, 1), Op::Sync(1, 0), Op::Upd(0, 11), Op::Upd(1, 11), Op::Upd(1, 12), Op::Commit(0, 0), Op::Commit(1, 0)];
+    alphabet.extend_from_slice(extra);
+    Scenario {
+        name: name.to_string(),
+        nrep: 2,
+        menu: menu(docs),
+        prologue,
+        alphabet,
+        key_opts: KeyOpts::default(),
+        max_depth: depth,
+        track: false,
+        order: None,
+    }
+}
+
+/// Two replicas whose block graph already holds origin <- shared second commit <- two concurrent
+/// commits (a diamond is one commit away); replica 0 has melded and refreshed both branches.
+pub fn diamond_scenario(name: &str, doc_idx: &[usize], depth: usize, extra: &[Op]) -> Scenario {
+    let sc = pair_scenario(name, doc_idx, depth, extra);
+    let all = arr_docs();
+    let mut docs = sc.menu.docs.clone();
+    let base = docs.len();
+    docs.push(all[9].clone()); // shared second commit: root scalar
+    docs.push(all[2].clone()); // branch a: append z
+    docs.push(all[3].clone()); // branch b: remove x
+    let mut sc = sc;
+    sc.menu = menu(docs);
+    sc.prologue.extend_from_slice(&[
+        Op::Upd(0, base),
+        Op::Commit(0, 0),
+        Op::Sync(1, 0),
+        Op::Upd(0, base + 1),
+        Op::Commit(0, 0),
+        Op::Upd(1, base + 2),
+        Op::Commit(1, 0),
+        Op::Sync(0, 1),
+    ]);
+    sc
 }
